@@ -39,6 +39,7 @@ MIN_INSTANCES = 12
 
 def chain_loop(ctx: Ctx, rule: str) -> None:
     fn = ctx.repo.func(MANU)
+    ctx.require_locals(MANU, ["retcode", "setup_chain", "setup_func", "run_params"])
     loop = the_loop(ctx, MANU, ast.For, lambda l: any(call_name(c) == "getattr" for c in calls_in(l)), "setup chain loop")
     chain_defs = [s for s in fn.node.body if isinstance(s, ast.Assign) and ast.unparse(s.targets[0]) == "setup_chain"]
     ok_iter = ast.unparse(loop.iter) == "enumerate(setup_chain)" and len(chain_defs) == 1 and ast.unparse(chain_defs[0].value) == "run_params.objects('setup')"
@@ -100,6 +101,7 @@ def chain_loop(ctx: Ctx, rule: str) -> None:
 
 def per_vm_template(ctx: Ctx, rule: str) -> None:
     fn = ctx.repo.func(ITER)
+    ctx.require_locals(ITER, ["setup_dict", "nodes", "graph", "selected_vms"])
     wl = the_loop(ctx, ITER, ast.For, lambda l: ast.unparse(l.iter) == "graph.workers.values()", "worker loop")
     inner = [l for l in wl.body if isinstance(l, ast.For)]
     if len(inner) != 1:
@@ -142,6 +144,7 @@ def per_vm_template(ctx: Ctx, rule: str) -> None:
 
 def per_worker_template(ctx: Ctx, rule: str) -> None:
     fn = ctx.repo.func(ONE)
+    ctx.require_locals(ONE, ["setup_dict", "nodes", "graph", "selected_vms", "vms"])
     wl = the_loop(ctx, ONE, ast.For, lambda l: ast.unparse(l.iter) == "graph.workers.values()", "worker loop")
     views = loop_iteration_views(ctx, ONE, wl, None)
     problems = []
